@@ -239,6 +239,17 @@ def corr(pid, tier, seed, wdir, timeout):
     info = {"harness_s": round(dt, 2), "harness_rc": rc, "harness_out": out[-4000:]}
     if rc != 0:
         info["error"] = "correspondence harness failed (exit %d)" % rc
+        # the library killed the harness process (panic in a worker goroutine, fatal error, timeout):
+        # the case that was running is the failing input
+        try:
+            cur = open(os.path.join(wdir, "current_case.txt"), encoding="utf-8", errors="replace").read()
+        except OSError:
+            cur = None
+        if cur and ("panic:" in out or "fatal error:" in out or "goroutine " in out or rc == 124):
+            tb = out[out.find("panic:"):][:1500] if "panic:" in out else out[-1500:]
+            info["crash"] = {"key": "%s/crash/%s" % (pid, hashlib.sha1(tb[:200].encode()).hexdigest()[:10]),
+                             "what": "the library brought the process down (%s) while running this case" % ("timeout" if rc == 124 else "panic / fatal error outside any recover"),
+                             "case": cur[:6000], "traceback": tb}
         return False, info
     t0 = time.time()
     ok, msg = run_driver_sharded(os.path.join(wdir, "ops.txt"), os.path.join(wdir, "model.txt"), timeout)
@@ -460,15 +471,19 @@ def run_check(pid, tier, seed):
     # findings flagged by the harness itself as direct property violations on the real code
     # (lines "DIRECT <json>" in stats.extra.direct)
     directs = list((cinfo.get("stats", {}).get("extra", {}) or {}).get("direct", []) or []) + extra_direct
+    if cinfo.get("crash"):
+        directs.append(cinfo["crash"])
     if directs:
         # a concrete failing input on the real code explains the broken proof / correspondence:
         # report the witnesses instead of a witness-less line per broken step
         violations = [v for v in violations if v.get("search", {}).get("found")]
     seen_keys = set()
-    for d in directs[:8]:
-        if d.get("key") in seen_keys:
+    for d in directs:
+        # one line per kind of failure (first two components of the key), at most four lines
+        kkey = "/".join(str(d.get("key", "")).split("/")[:3])
+        if kkey in seen_keys or len(seen_keys) >= 4:
             continue
-        seen_keys.add(d.get("key"))
+        seen_keys.add(kkey)
         matched = None
         for k in known:
             if k.get("key") == d.get("key"):
